@@ -1,5 +1,6 @@
 from contracts.copying import CONTRACTS as _C
-CONTRACTS = list(_C)
+from contracts.surveys import CellCopyStub, EMCopy
+CONTRACTS = list(_C) + [CellCopyStub, EMCopy]
 
 MANIFEST = {
     "category": "proof",
